@@ -13,6 +13,7 @@ import (
 	"runtime/debug"
 	"sort"
 	"strings"
+	"syscall"
 	"time"
 
 	"verifharness/direct"
@@ -50,10 +51,17 @@ func main() {
 	traceFile := flag.String("trace", "", "trace output for -case")
 	mode := flag.String("mode", "history", "history|direct")
 	flag.Parse()
-	// Under -tags faketime a goroutine that blocks on a timer while a concurrent GC cycle is finishing
-	// can hang for ever (observed with go1.23.5): collect only between cases, on one P.
+	// Under -tags faketime the runtime's timed waits never expire while anything runs, so a GC cycle
+	// that has to wait for another P (mark termination, stop-the-world) hangs for ever (go1.23.5).
+	// One P and no background GC, from the very first instruction: re-exec with the environment set.
+	if os.Getenv("GOMAXPROCS") != "1" || os.Getenv("GOGC") != "off" {
+		env := append(os.Environ(), "GOMAXPROCS=1", "GOGC=off")
+		exe, err := os.Executable()
+		if err == nil {
+			syscall.Exec(exe, os.Args, env)
+		}
+	}
 	debug.SetGCPercent(-1)
-	runtime.GOMAXPROCS(1)
 
 	start := time.Now() // virtual; wall time is measured by the driver
 	_ = start
